@@ -12,6 +12,7 @@
 -/
 import FwdVerif.Lemmas.C17Main
 import FwdVerif.Lemmas.C17Subject
+import FwdVerif.Lemmas.C17Conc
 
 namespace FwdVerif
 namespace C17
@@ -437,6 +438,178 @@ example : ∃ m, fromList v6PrefixList = .ok m ∧
       by simp [outcome, optMatch, Site.subject, s1, h1], by simp [outcome, optMatch, Site.subject, s3, h2]⟩
   | noInclude => exact absurd ((c17_no_include_error _).mp h) (by decide)
   | panic e => exact absurd h (c17_no_panic (by decide) e)
+
+/-! ### Concurrent use: one matcher per list, shared by every connection (and by `Inverse()`)
+
+Model: `FwdVerif/Model/C17Conc.lean`.  A `Query` is one call of `Match` (on the matcher, or on the
+matcher `Inverse()` returned for it, which aliases the slices); `run m es` is the process serving
+the calls `es` in the order the scheduler lets them through, as transitions of the state all callers
+share; `Interleaving callers es` says `es` merges the callers' own sequences.  The statement: the
+interleaving does not matter, every answer is the union of the includes minus the excludes — because
+`match` has no store.  The second half is the counter-model these theorems exclude: a
+self-organising include list whose swap is two plain stores. -/
+
+/-- `Match` never writes: after any number of calls the shared matcher is what it was, and every
+    call was answered as if it had been the only one -/
+theorem c17_match_never_writes (m : Matcher) (qs : List Query) :
+    (run m qs).1 = m ∧ (run m qs).2 = qs.map (answer m) := by
+  rw [run_eq]; exact ⟨rfl, rfl⟩
+
+/-- what the specified answer means: asked directly, the union of the includes minus the excludes;
+    asked through `Inverse()`, its negation -/
+theorem c17_spec_answer (l : List Rule) (q : Query) :
+    (q.viaInverse = false → (specAnswer l q = true ↔ Spec l q.host)) ∧
+      (q.viaInverse = true → (specAnswer l q = true ↔ ¬ Spec l q.host)) := by
+  refine ⟨fun hq => ?_, fun hq => ?_⟩
+  · simp only [specAnswer, hq, Bool.false_eq_true, if_false]; exact specMatch_iff l q.host
+  · simp only [specAnswer, hq, if_true, Bool.not_eq_true']
+    rw [← specMatch_iff l q.host]; simp
+
+/-- **for any interleaving of the query sequences of several callers, each answer equals
+    `matches rules host`** — the union of the include rules minus the excludes, for every valid
+    list, every host and every order the scheduler picks -/
+theorem c17_concurrent_answers {l : List Rule} {m : Matcher} (_hv : Valid l) (h : fromList l = .ok m)
+    (callers : List (List Query)) (es : List Query) (_hi : Interleaving callers es) :
+    (run m es).2 = es.map (specAnswer l) := by
+  rw [run_eq]
+  exact List.map_congr_left fun q _ => answer_fromList h q
+
+/-- whatever the schedule, every caller is told the specified answers to its own calls, in its own
+    order: nothing of another caller's calls shows in them -/
+theorem c17_concurrent_per_caller {l : List Rule} {m : Matcher} (_hv : Valid l) (h : fromList l = .ok m)
+    (s : Schedule) (c : Nat) :
+    callerAnswers c (runSchedule m s) = (callerQueries c s).map (specAnswer l) := by
+  rw [callerAnswers_runSchedule]
+  exact List.map_congr_left fun q _ => answer_fromList h q
+
+/-- the multiset of answers of any interleaving is the union of the callers' specified answers -/
+theorem c17_concurrent_multiset {l : List Rule} {m : Matcher} (hv : Valid l) (h : fromList l = .ok m)
+    (callers : List (List Query)) (es : List Query) (hi : Interleaving callers es) :
+    (run m es).2.Perm (callers.map fun c => c.map (specAnswer l)).flatten := by
+  rw [c17_concurrent_answers hv h callers es hi, ← List.map_flatten]
+  exact hi.perm.map _
+
+/-- … so two runs of the same callers under different schedules give the same answers -/
+theorem c17_concurrent_schedule_irrelevant {l : List Rule} {m : Matcher} (hv : Valid l)
+    (h : fromList l = .ok m) (callers : List (List Query)) (es es' : List Query)
+    (hi : Interleaving callers es) (hi' : Interleaving callers es') :
+    (run m es).2.Perm (run m es').2 :=
+  (c17_concurrent_multiset hv h callers es hi).trans (c17_concurrent_multiset hv h callers es' hi').symm
+
+/-- … and inside the run every caller's answers keep the order of its calls -/
+theorem c17_concurrent_order_kept {l : List Rule} {m : Matcher} (hv : Valid l) (h : fromList l = .ok m)
+    (callers : List (List Query)) (es : List Query) (hi : Interleaving callers es) :
+    ∀ c ∈ callers, (c.map (specAnswer l)).Sublist (run m es).2 := by
+  intro c hc
+  rw [c17_concurrent_answers hv h callers es hi]
+  exact (hi.sublist c hc).map _
+
+-- two callers, `[a₁, a₂]` and `[b₁]`: `a₁, b₁, a₂` is one of their three interleavings
+example (a₁ a₂ b₁ : Query) : Interleaving [[a₁, a₂], [b₁]] [a₁, b₁, a₂] :=
+  .take (pre := []) (post := [[b₁]]) a₁
+    (.take (pre := [[a₂]]) (post := []) b₁
+      (.take (pre := []) (post := [[]]) a₂ (.done (by simp))))
+
+/-! #### The counter-model: a self-organising include list (`TState`, `TOp`, `trun`) -/
+
+/-- Why sequential tests cannot tell: as long as every call runs to its end before the next one
+    starts — whichever goroutines issue them, directly or through `Inverse()` — each swap only
+    permutes the slice, and every answer is the one the unchanged list gives -/
+theorem c17_transpose_sequential (st : TState) (hp : st.pend = []) (calls : List (Nat × Query)) :
+    (trun st (calls.flatMap atomicOps)).2 = calls.map (fun c => answer st.matcher c.2) ∧
+      (trun st (calls.flatMap atomicOps)).1.incl.Perm st.incl ∧
+      (trun st (calls.flatMap atomicOps)).1.excl = st.excl ∧
+      (trun st (calls.flatMap atomicOps)).1.pend = [] := by
+  induction calls generalizing st with
+  | nil => exact ⟨rfl, List.Perm.refl _, rfl, hp⟩
+  | cons c calls ih =>
+    obtain ⟨a1, a2, a3, a4⟩ := atomic_call st hp c
+    obtain ⟨b1, b2, b3, b4⟩ := ih (trun st (atomicOps c)).1 a4
+    have hans : ∀ q, answer (trun st (atomicOps c)).1.matcher q = answer st.matcher q := by
+      intro q
+      rw [answer_eq_via _ rfl q, answer_eq_via _ rfl q]
+      simp only [TState.matcher, a3]
+      rw [matchRaw_perm _ a2]
+    simp only [List.flatMap_cons, trun_append, a1, b1, hans, List.map_cons, List.singleton_append]
+    exact ⟨trivial, b2.trans a2, b3.trans a3, b4⟩
+
+/-- Loss is permanent: once no rule that matches `s` is left — neither in the slice nor in a swap
+    some goroutine has loaded and not yet stored — no schedule of further steps brings one back, and
+    every later `Match(s)` says `false` -/
+theorem c17_transpose_loss_permanent {st : TState} {s : Bytes} (hb : Blind st s) (ops : List TOp) (g : Nat) :
+    Blind (trun st ops).1 s ∧ (tstep (trun st ops).1 (.walk g ⟨false, s⟩)).2 = some false := by
+  have hb' := blind_run hb ops
+  refine ⟨hb', ?_⟩
+  simp only [tstep]
+  split
+  · rfl
+  · simp only [blind_firstHit hb']; rfl
+
+/-- the list `a`, `b`, `c` -/
+def abcList : List Rule := [⟨[97], false⟩, ⟨[98], false⟩, ⟨[99], false⟩]
+/-- the list `a`, `b` -/
+def abList : List Rule := [⟨[97], false⟩, ⟨[98], false⟩]
+
+/-- goroutine 0 is answering `Match("b")`, goroutine 1 `Match("c")`: both have loaded their pairs
+    (`a`,`b` and `b`,`c`) before either stores -/
+def lossSchedule : List TOp :=
+  [.walk 0 ⟨false, [98]⟩, .walk 1 ⟨false, [99]⟩, .storeLo 0, .storeHi 0, .storeLo 1, .storeHi 1]
+
+/-- **the kernel-checked witness**: under the list `a`, `b`, `c` the host `a` is matched (rule `a` on
+    its own matches it, there is no exclude rule).  The two calls one after the other leave a
+    permutation and `a` is still matched; with the stores of their two swaps interleaved the slice
+    becomes `b`, `c`, `b` — rule `a` is stored nowhere — and `Match("a")` is `false`,
+    `Inverse().Match("a")` is `true` -/
+theorem c17_transpose_lost_rule_witness :
+    Valid abcList ∧ Spec abcList [97] ∧ matchesOf abcList [97] = some true ∧
+    raceAnswers abcList (atomicOps (0, ⟨false, [98]⟩) ++ atomicOps (1, ⟨false, [99]⟩) ++
+        [.walk 2 ⟨false, [97]⟩, .walk 3 ⟨true, [97]⟩]) = some [true, true, true, false] ∧
+    raceAnswers abcList (lossSchedule ++ [.walk 2 ⟨false, [97]⟩, .walk 3 ⟨true, [97]⟩]) =
+      some [true, true, false, true] ∧
+    blindAfter abcList lossSchedule [97] = true := by
+  refine ⟨?_, ?_, ?_, ?_, ?_, ?_⟩ <;> decide
+
+/-- … and for ever after: whatever steps follow the interleaved swaps, `Match("a")` stays `false` -/
+theorem c17_transpose_lost_forever_witness (ops : List TOp) (g : Nat) :
+    ∃ st, tinit abcList = some st ∧
+      (tstep (trun (trun st lossSchedule).1 ops).1 (.walk g ⟨false, [97]⟩)).2 = some false := by
+  have hb : blindAfter abcList lossSchedule [97] = true := by decide
+  unfold blindAfter at hb
+  cases ht : tinit abcList with
+  | none => simp [ht] at hb
+  | some st =>
+    simp only [ht, decide_eq_true_eq] at hb
+    exact ⟨st, rfl, (c17_transpose_loss_permanent hb ops g).2⟩
+
+/-- two include rules are enough.  Transient: while goroutine 0 is between the two stores of its
+    swap the slice reads `b`, `b`, and a concurrent `Match("a")` is answered `false` (then `true`
+    again).  Permanent: goroutine 0 loads `a`,`b`; goroutine 1 completes `Match("b")` and loads
+    `b`,`a` for `Match("a")`; the four stores in the order lo₀ lo₁ hi₁ hi₀ leave `a`, `a` — rule `b`
+    is gone -/
+theorem c17_transpose_two_rules_witness :
+    Valid abList ∧ Spec abList [97] ∧ Spec abList [98] ∧
+    raceAnswers abList [.walk 0 ⟨false, [98]⟩, .storeLo 0, .walk 1 ⟨false, [97]⟩, .storeHi 0,
+        .walk 1 ⟨false, [97]⟩] = some [true, false, true] ∧
+    raceAnswers abList [.walk 0 ⟨false, [98]⟩, .walk 1 ⟨false, [98]⟩, .storeLo 1, .storeHi 1,
+        .walk 1 ⟨false, [97]⟩, .storeLo 0, .storeLo 1, .storeHi 1, .storeHi 0,
+        .walk 2 ⟨false, [98]⟩, .walk 2 ⟨true, [98]⟩, .walk 2 ⟨false, [97]⟩] =
+      some [true, true, true, false, true, true] := by
+  refine ⟨?_, ?_, ?_, ?_, ?_⟩ <;> decide
+
+-- c17_concurrent_*: a valid list that builds; c17_transpose_sequential: a state with nothing pending
+example : Valid abcList ∧ ∃ st, tinit abcList = some st ∧ st.pend = [] := by
+  refine ⟨by decide, ?_⟩
+  cases h : tinit abcList with
+  | none => exact absurd h (by decide)
+  | some st =>
+    refine ⟨st, rfl, ?_⟩
+    unfold tinit at h
+    split at h
+    · simp only [Option.some.injEq] at h; subst h; rfl
+    · cases h
+-- the code's model on the calls of `lossSchedule`, in both orders: every answer is the specified one
+example : (matchesOf abcList [98], matchesOf abcList [99], matchesOf abcList [97]) = (some true, some true, some true) := by
+  decide
 
 end C17
 end FwdVerif
